@@ -27,9 +27,16 @@ EXPLANATION = ("Theorems C04_* prove the identities, [0,1] range, NaN locus, def
                "mirror/nesting for all rational matrices and any sqrt / z oracles. The correspondence run evaluates "
                "score_analysis.metrics.* and ConfusionMatrix(binary=True) methods (+aliases) on the same matrices, "
                "compares them with the model's rates and evaluates the Lean spec predicates on the observed values; "
-               "z is the value returned by the real scipy.stats.norm.isf call (recorded); half-widths are compared squared.")
+               "z is the value returned by the real scipy.stats.norm.isf call (recorded); half-widths are compared squared. "
+               "Second tie, for the DEFINITIONS: harness/metricdefs.py translates the current metrics.py / cm.py (Python ast) into "
+               "the expression IR of SA/Model/MetricExpr.lean; the generated theorem generated_c04_defs_ok (kernel-checked on every "
+               "run) lists the functions whose normal form num/den equals the model's, and SA.MetricExpr.checkAll_covered_sound "
+               "makes each of them the model's metric on EVERY rational matrix (coverage.generated_definitions).")
 TRUSTED_BASE = ["Lean 4.33 kernel", "axioms propext/Classical.choice/Quot.sound only",
                 "hand-written model SA/Model/Metrics.lean tied to /repo by this correspondence run",
+                "harness/metricdefs.py (translation Python ast -> expression IR: indexing, np.sum axes, np.divide(where=), np.where, "
+                "helper inlining, decorator pass-through check); values only - dtypes, warnings, leading axes, result types are the "
+                "business of the sampled runs",
                 "scipy.stats.norm.isf and np.sqrt as oracles (isf antitone is a hypothesis of C04_ci_nested)",
                 "harness and driver parsing; tolerance 1e-9 on float-valued quantities"]
 ASSUMPTIONS = ["non-negative finite cells", "float sums of float-valued cells compared with tolerance",
@@ -46,15 +53,43 @@ CI_NAMES = ["tpr_ci", "tnr_ci", "fpr_ci", "fnr_ci"]
 CI_ALIAS = {"tar_ci": "tpr_ci", "trr_ci": "tnr_ci", "far_ci": "fpr_ci", "frr_ci": "fnr_ci"}
 
 
+SEPARATING_PRIMES = [2, 3, 5, 7, 11, 13, 17, 19, 23, 29, 31, 37, 41, 43, 47, 53]
+
+
 def n_cases(tier):
     return 4000 if tier == "quick" else 32000
+
+
+# --------------------------------------------------------------------------------------
+# second tie for the definitions: regenerated from the source on every run (harness/metricdefs.py -> generated Lean
+# file, normal forms compared with the model's table by the kernel; soundness: SA/Theorems/C04Defs.lean)
+# --------------------------------------------------------------------------------------
+def extra_gate_start():
+    """start the translator + Lean check in a child process; the sampled matrices run meanwhile"""
+    import metricdefs
+    return metricdefs.start(common.REPO)
+
+
+def extra_gate_finish(handle):
+    """-> {problems, theorems, obligations, discharged, notes, evidence, evidence_key}; a definite mismatch (a translated
+    definition and the model differ on a named witness matrix) is a broken proof obligation (run.py then searches the
+    generated cases for a failing input: the separating matrices of `gen_matrix` provide one), unknowns are evidence only"""
+    import metricdefs
+    return metricdefs.gate_result(metricdefs.finish(handle))
 
 
 def gen_matrix(rng, kind):
     if kind == "int":
         m = [rng.choice([0, 0, 1, 2, 3, 5, 10, 100, rng.randint(0, 1000)]) for _ in range(4)]
-        if rng.random() < 0.2:  # large populations (products of counts beyond 2**63)
+        r0 = rng.random()
+        if r0 < 0.2:  # large populations (products of counts beyond 2**63)
             m = [rng.choice([0, 1, 10**6, 3 * 10**6, 10**7, 2 * 10**9, rng.randint(0, 10**10)]) for _ in range(4)]
+        elif r0 < 0.35:
+            # four DISTINCT primes in random order, each cell zeroed independently with probability 1/4: two different
+            # quotients of small-integer linear forms in (tp, fn, fp, tn) - a swapped cell, a wrong denominator, a guard on
+            # another quantity - take different values on such a matrix, so a wrong DEFINITION reported by the generated
+            # definitions gate (harness/metricdefs.py) is also met with a concrete failing input here
+            m = [x if rng.random() >= 0.25 else 0 for x in rng.sample(SEPARATING_PRIMES, 4)]
     elif kind == "dyadic":
         m = [rng.choice([0, 0.5, 1.5, 2.25, 8.0, rng.randint(0, 64) / 8.0]) for _ in range(4)]
     else:
@@ -262,6 +297,8 @@ def build(inp) -> Case:
         ["history"] if inp.get("history") else [])
     if nmat == 0:
         tags.append("empty-stack")
+    if inp["kind"] == "int" and any(len({x for x in m if x}) >= 3 and all(x in SEPARATING_PRIMES for x in m if x) for m in inp["mats"]):
+        tags.append("separating-primes")
     if any(0 in (m[0] + m[1], m[2] + m[3], m[0] + m[2], m[1] + m[3]) for m in inp["mats"]):
         tags.append("zero-denominator")
 
